@@ -3541,7 +3541,8 @@ impl LineBuf {
 								let line_no = self.index_line_number(anchor_pos);
 								let (start,end) = self.line_bounds(line_no).unwrap_or((0,self.cursor.max));
 								let line_len = end.saturating_sub(start);
-								(start + cursor_col).min(line_len)
+								// Keep the column, but stay on a character of that line
+								start + cursor_col.min(line_len.saturating_sub(1))
 							};
 							self.cursor.set(new_cursor_pos);
 						}
